@@ -100,6 +100,10 @@ func (h *killedHandler) cleanupIfNotRestarting() {
 	h.ctx.EventStream().UnsubscribeAll(h.ctx)
 	h.ctx.system.removeActorContext(h.ctx)
 
+	// 终止过程中（处理 OnKill、子 Actor 的 OnKilled 或自身的 OnKilled 时）发起的 Ask 是在 doKill 的清理之后才注册的，
+	// 此处再清理一次，使其以 ErrorActorDeaded 结束，而不是一直等到各自的超时
+	h.ctx.system.removeFuturesByAgentPath(h.ctx.ref.GetPath(), vivid.ErrorActorDeaded)
+
 	// 通知所有监听者
 	for _, watcher := range h.ctx.watchers {
 		h.ctx.tell(true, watcher, h.selfKilledMessage)
